@@ -807,6 +807,26 @@ def slice_class(sel, fft):
     return 'slice:step-dividing-span' if ln > 0 else 'slice:empty'
 
 
+def oracle_signal(xs, mu, mimo, as1d):
+    """the array handed to the real code.  A transmitter with ONE antenna (MIMO link whose input
+    side has one row: nt == 1, or nr == 1 in the switched direction) may pass its stream as (1, n)
+    or as (n,); a multiuser channel with ONE source may pass its whole signal without the source
+    axis.  Returns (signal, stream-class or None)."""
+    stream = None
+    if mimo and xs[0].ndim == 2 and xs[0].shape[0] == 1:
+        stream = 'single-stream-1d' if as1d else 'single-stream-2d'
+        if as1d:
+            xs = [x[0] for x in xs]
+    if not mu:
+        return xs[0], stream
+    sig = np.array(xs)
+    if not mimo and len(xs) == 1:
+        stream = 'single-source-1d' if as1d else 'single-source-2d'
+        if as1d:
+            sig = sig[0]
+    return sig, stream
+
+
 def o_transmit(case):
     """time-domain or frequency-domain transmissions on ONE real object, each compared with
     the first-principles formula evaluated on the response reported right after it"""
@@ -832,16 +852,19 @@ def o_transmit(case):
         xs = [x2np(x) for x in (op['x'] if mu else [op['x']])]
         if not mimo:
             xs = [x.reshape(-1) for x in xs]
-        sig = np.array(xs) if mu else xs[0]
+        sig, stream = oracle_signal(xs, mu, mimo, bool(op.get('as1d')))
         try:
             if k == 'tx':
                 y = ch.corrupt_data(sig)
             else:
                 y = ch.corrupt_data_in_freq_domain(sig, op['fft'], sel2py(op['sel']))
         except Exception as e:
-            # class from the input only (selection geometry resp. antenna set-up), not from the message
-            return ('%s:exception:%s' % (kind, slice_class(op['sel'], op['fft']) if k == 'fx' else cfg),
-                    '%s on %s: %r' % (type(e).__name__, cfg, e))
+            # class from the input only (stream shape, antenna set-up, selection geometry), not from the message
+            if stream is not None:
+                cls = '%s:exception:%s:%s' % (kind, stream, cls_in)
+            else:
+                cls = '%s:exception:%s' % (kind, slice_class(op['sel'], op['fft']) if k == 'fx' else cfg)
+            return cls, '%s on %s, signal shape %s: %r' % (type(e).__name__, cfg, np.asarray(sig).shape, e)
         # expected, from the responses reported now
         if mu:
             nrx, ntx = case['nrx'], case['ntx']
@@ -864,11 +887,13 @@ def o_transmit(case):
             exp = [conv_expected(dense, xs[0], sw, mimo) if k == 'tx'
                    else freq_expected(dense, xs[0], op['fft'], op['sel'], sw, mimo)]
             ys = [y]
+        tag = (stream + ':' if stream is not None and stream.endswith('1d') else '') + cls_in
         for yy, ee in zip(ys, exp):
             if np.asarray(yy).shape != ee.shape:
-                return '%s:shape:%s' % (kind, cls_in), 'got %s expected %s' % (np.asarray(yy).shape, ee.shape)
+                return '%s:shape:%s' % (kind, tag), 'got %s expected %s' % (np.asarray(yy).shape, ee.shape)
             if not allclose(yy, ee):
-                return '%s:value:%s' % (kind, cls_in), 'max |y - expected| = %g' % float(np.max(np.abs(yy - ee)))
+                return ('%s:value:%s' % (kind, tag), 'signal shape %s: max |y - expected| = %g'
+                        % (np.asarray(sig).shape, float(np.max(np.abs(yy - ee)))))
     return None
 
 
@@ -880,6 +905,11 @@ def o_linear(case):
     x1, x2 = x2np(case['x1']), x2np(case['x2'])
     if not mimo:
         x1, x2 = x1.reshape(-1), x2.reshape(-1)
+    stream = None
+    if mimo and x1.shape[0] == 1:
+        stream = 'single-stream-1d' if case.get('as1d') else 'single-stream-2d'
+        if case.get('as1d'):
+            x1, x2 = x1[0], x2[0]
     for sig in (x1, x2, a * x1 + b * x2):
         ch = _real_channel(case)
         if case.get('sw'):
@@ -893,8 +923,12 @@ def o_linear(case):
             else:
                 outs.append(np.asarray(ch.corrupt_data_in_freq_domain(sig, case['fft'], sel2py(case['sel']))))
         except Exception as e:
+            cfg = 'siso' if not mimo else ('mimo-switched' if case.get('sw') else 'mimo')
+            if stream is not None:
+                return ('%s:exception:%s:%s' % (case['kind'], stream, cfg),
+                        '%s, signal shape %s: %r' % (type(e).__name__, np.asarray(sig).shape, e))
             return ('%s:exception:%s' % (case['kind'], slice_class(case['sel'], case['fft']) if case['kind'] == 'fd'
-                                         else ('siso' if not mimo else 'mimo')), '%s: %r' % (type(e).__name__, e))
+                                         else cfg), '%s: %r' % (type(e).__name__, e))
     if not allclose(outs[2], a * outs[0] + b * outs[1]):
         return 'not-linear:' + case['kind'], 'max dev %g' % float(np.max(np.abs(outs[2] - a * outs[0] - b * outs[1])))
     return None
@@ -999,7 +1033,7 @@ def gen_oracle_case(rng, level, only=None):
         if (only or ('td' if rng.chance(0.5) else 'fd')) == 'td':
             n = rng.randint(1, 12)
             xs = [gen_signal(rng, rows, n) for _ in range(nsrc)]
-            ops.append({'op': 'tx', 'x': xs if level == 'mu' else xs[0]})
+            ops.append({'op': 'tx', 'x': xs if level == 'mu' else xs[0], 'as1d': rng.chance(0.5)})
         else:
             while True:
                 fft = rng.randint(1, 16)
@@ -1008,7 +1042,8 @@ def gen_oracle_case(rng, level, only=None):
                     break
             n = B * rng.randint(1, 3)
             xs = [gen_signal(rng, rows, n) for _ in range(nsrc)]
-            ops.append({'op': 'fx', 'fft': fft, 'sel': sel, 'x': xs if level == 'mu' else xs[0]})
+            ops.append({'op': 'fx', 'fft': fft, 'sel': sel, 'x': xs if level == 'mu' else xs[0],
+                        'as1d': rng.chance(0.5)})
     case['ops'] = ops
     return case
 
@@ -1033,12 +1068,55 @@ def gen_linear_case(rng):
             if B:
                 break
         n = B * rng.randint(1, 2)
+    c['as1d'] = rng.chance(0.5)
     c['x1'] = gen_signal(rng, rows, n)
     c['x2'] = gen_signal(rng, rows, n)
     return c
 
 
 SLICE_WITNESSES = [([0, 10, 3], 16), ([1, 16, 4], 16), ([None, None, 5], 16), ([15, 0, -2], 16)]
+
+
+def single_stream_witnesses():
+    """every way a ONE-antenna transmitter / ONE-source multiuser channel can hand over its stream:
+    (1, n) and (n,), both link directions, time and frequency domain, TdlChannel / SuChannel /
+    MuChannel / MuMimoChannel, with and without path loss"""
+    rng = core.Rng(31, 'c03single')
+    out = []
+    for level in ('tdl', 'su', 'mu'):
+        for ant, sw in (([1, 3], True), ([3, 1], False), ([1, 1], False), ([1, 1], True), ([2, 1], False),
+                        ([1, 2], True), (None, False), (None, True)):
+            for kind in ('tx', 'fx'):
+                for as1d in (False, True):
+                    for pl in ((False, True) if level != 'tdl' else (False,)):
+                        case = {'level': level, 'npseed': rng.below(1 << 30), 'jakes': rng.chance(0.5), 'ant': ant,
+                                'Ts': 1e-3, 'powers_dB': [0.0, -3.0, -6.0], 'delays_s': [0.0, 1e-3, 4e-3]}
+                        if level == 'mu':
+                            # one source in the direction used (so the whole signal may drop the source axis)
+                            case['nrx'], case['ntx'] = (1, 2) if sw else (2, 1)
+                            if ant is not None and rng.chance(0.5):
+                                case['nrx'], case['ntx'] = 2, 2
+                        elif ant is None:
+                            continue            # SISO single links have one shape only
+                        ops = []
+                        if sw:
+                            ops.append({'op': 'sw', 'v': True})
+                        if pl:
+                            ops.append({'op': 'pl', 'p': ([[0.25] * case['ntx']] * case['nrx']) if level == 'mu' else 0.25})
+                        nsrc = 1 if level != 'mu' else (case['nrx'] if sw else case['ntx'])
+                        if kind == 'tx':
+                            xs = [gen_signal(rng, 1, 6) for _ in range(nsrc)]
+                            ops.append({'op': 'tx', 'x': xs if level == 'mu' else xs[0], 'as1d': as1d})
+                        else:
+                            sel = rng.choice([{'kind': 'all'}, {'kind': 'slice', 'slice': [0, 8, 3]},
+                                              {'kind': 'idx', 'idx': [1, -1, 4], 'as_array': True}])
+                            B = 8 if sel['kind'] == 'all' else 3
+                            xs = [gen_signal(rng, 1, 2 * B) for _ in range(nsrc)]
+                            ops.append({'op': 'fx', 'fft': 8, 'sel': sel, 'x': xs if level == 'mu' else xs[0],
+                                        'as1d': as1d})
+                        case['ops'] = ops
+                        out.append(case)
+    return out
 
 
 def oracles(ctx, n_tx, n_lin, n_disc):
@@ -1050,6 +1128,13 @@ def oracles(ctx, n_tx, n_lin, n_disc):
                 'ops': [{'op': 'fx', 'fft': fft, 'sel': {'kind': 'slice', 'slice': sl},
                          'x': gen_signal(core.Rng(9, 'c03w'), 1, 2 * B)}]}
         run_oracle(ctx, 'transmit', case)
+    for case in single_stream_witnesses():
+        run_oracle(ctx, 'transmit', case)
+        op = case['ops'][-1]
+        if case['ant'] is not None and op.get('as1d'):
+            ctx.branch('oracle:single-stream-1d:' + ('switched' if any(o['op'] == 'sw' for o in case['ops']) else 'direct'))
+        if case['ant'] is None and case['level'] == 'mu' and op.get('as1d'):
+            ctx.branch('oracle:single-source-1d')
     for ds_, ps_ in (([Fraction(13, 10)], [Fraction(4, 5)]), ([Fraction(7, 10)], [Fraction(1, 6)]),
                      ([Fraction(13, 10)] * 3, [Fraction(1), Fraction(1, 2), Fraction(1, 3)])):
         run_oracle(ctx, 'get_discretize_profile', {'Ts': '1', 'delays': [fr2s(d) for d in ds_],
@@ -1082,7 +1167,8 @@ def oracles(ctx, n_tx, n_lin, n_disc):
 REQUIRED = ['gen:jakes', 'gen:rayleigh', 'ant:siso', 'ant:mimo-nr!=nt', 'td:direct', 'td:switched', 'fd:direct',
             'fd:switched', 'sel:all', 'sel:idx', 'sel:slice', 'slice:neg-step', 'slice:step-not-dividing-span',
             'pathloss', 'history>=2', 'level:mu', 'level:su', 'level:tdl', 'disc:colliding-delays',
-            'disc:tie-at-half', 'fft:crop', 'fft:pad']
+            'disc:tie-at-half', 'fft:crop', 'fft:pad', 'oracle:single-stream-1d:switched',
+            'oracle:single-stream-1d:direct', 'oracle:single-source-1d']
 
 
 def check(ctx):
